@@ -32,6 +32,7 @@ type rewrite struct {
 	Name     string
 	Edits    []edit
 	Reindent bool // white space inside multi-line notes may change
+	MixedEOL bool // the rewritten document mixes line-ending conventions: error lines are not compared
 }
 
 func applyEdits(s string, ee []edit) string {
@@ -146,6 +147,16 @@ func siteRewrites(text string, lex []impl.Lex) []rewrite {
 		if !d.prevIsFreeText {
 			out = append(out, rewrite{Name: "hash-comment-before", Edits: []edit{{ls, 0, ind + "# c\n"}}})
 			out = append(out, rewrite{Name: "block-comment-before", Edits: []edit{{ls, 0, ind + "### block\n  comment ###\n"}}})
+		}
+		// a'. line-ending rewrites at one site: the line break that ends the keyword line, and an inserted comment line that
+		// ends with another convention than the rest of the document (compositions of the listed rewrites at one site)
+		if le0 := lineEnd(text, d.kw.Begin); le0 < len(text) && !strings.Contains(text[d.kw.Begin:le0], "/*") && !strings.Contains(text[d.kw.Begin:le0], "###") && !d.isDescription {
+			out = append(out, rewrite{Name: "eol-cr-after-keyword-line", Edits: []edit{{le0, 1, "\r"}}, MixedEOL: true},
+				rewrite{Name: "eol-crlf-after-keyword-line", Edits: []edit{{le0, 1, "\r\n"}}, MixedEOL: true})
+		}
+		if !d.prevIsFreeText {
+			out = append(out, rewrite{Name: "hash-comment-before-ending-in-cr", Edits: []edit{{ls, 0, ind + "# c\r"}}, MixedEOL: true},
+				rewrite{Name: "hash-comment-before-ending-in-crlf", Edits: []edit{{ls, 0, ind + "# c\r\n"}}, MixedEOL: true})
 		}
 		// d. trailing blanks on the keyword line
 		le := lineEnd(text, d.kw.Begin)
@@ -477,6 +488,7 @@ func workC08(w *run.W) {
 		}
 		globals := globalRewrites(text)
 		try := func(name string, ee []edit, reindent bool) {
+			mixed := strings.Contains(name, "eol-") || strings.Contains(name, "ending-in-")
 			ridx++
 			if !w.Mine(ridx) {
 				return
@@ -517,7 +529,7 @@ func workC08(w *run.W) {
 				w.Violation("C08", "error-class-changed:"+strings.SplitN(name, "+", 2)[0], fmt.Sprintf("%s: error %q becomes %q under rewrite %s\n%s", f, orig.Err.Msg, b.Err.Msg, name, trunc(nt, 1200)), detail)
 				return
 			}
-			if int(orig.Err.Index) < len(text) {
+			if int(orig.Err.Index) < len(text) && !mixed {
 				wl, _, _ := ref.Locate(strings.ReplaceAll(strings.ReplaceAll(nt, "\r\n", "\n"), "\r", "\n"), 0)
 				_ = wl
 				ni := mapIndex(int(orig.Err.Index), ee)
